@@ -34,19 +34,40 @@ def rewindable_toggle_resets(ctx, rm: REModel, rule: str, directions):
     is the checkpoint reset executed?"""
     from ..booleval import ev
     st = rm.repo.func(MOD, f"{CLS}.rewindable.setter")
-    body = st.node.body
-    old_var = next((A.norm(s.targets[0]) for s in body if isinstance(s, ast.Assign) and A.norm(s.value) == "self._rewindable_flag"), None)
-    i_set = next((i for i, s in enumerate(body) if isinstance(s, ast.Assign) and A.chain(s.targets[0]) == "self._rewindable_flag"), None)
-    guards = [s for s in body[(i_set or 0):] if isinstance(s, ast.If) and any(is_reset_call(x) for x in A.walk_stmts(s.body))]
-    uncond = [s for s in body[(i_set or 0):] if is_reset_call(s)]
+
+    def run_setter(old, new):
+        """the setter interpreted statement by statement on the flag's old value and the new value: -> True if the reset is
+        executed, False if not, None if a test cannot be decided"""
+        env = {"self._rewindable_flag": old, "v": new, "self.resumable": True, "bool(v)": new}
+        state = {"done": False, "undecided": False}
+
+        def block(stmts):
+            for s_ in stmts:
+                if isinstance(s_, ast.Assign) and len(s_.targets) == 1:
+                    key = A.norm(s_.targets[0])
+                    val = ev(s_.value, env)
+                    if val is None and not (isinstance(s_.value, ast.Constant) and s_.value.value is None):
+                        env.pop(key, None)
+                    else:
+                        env[key] = val
+                elif isinstance(s_, ast.If):
+                    t = ev(s_.test, env)
+                    if t is None:
+                        if any(is_reset_call(x) for x in A.walk_stmts(s_.body + s_.orelse)) or any(isinstance(x, ast.Return) for x in A.walk_stmts(s_.body + s_.orelse)):
+                            state["undecided"] = True
+                            return "stop"
+                        continue
+                    if block(s_.body if t else s_.orelse) == "stop":
+                        return "stop"
+                elif isinstance(s_, ast.Return):
+                    return "stop"
+                elif is_reset_call(s_):
+                    state["done"] = True
+            return None
+        block(A.body(st.node))
+        return None if (state["undecided"] and not state["done"]) else state["done"]
     for old, new in directions:
-        if uncond:
-            done = True
-        elif guards and old_var is not None:
-            env = {old_var: old, "self._rewindable_flag": new, "self.resumable": True, "v": new}
-            done = ev(guards[0].test, env)
-        else:
-            done = False
+        done = run_setter(old, new)
         what = "re-enabling" if new else "disabling"
         ctx.ob(rule, cname(st, None, f"{what} rewinding ({old} -> {new}) resets the checkpoint"), done is True,
                "" if done is True else (f"{what} rewinding does not reset the checkpoint: " +
